@@ -177,6 +177,16 @@ impl Batch {
     }
 }
 
+/// the view over Echo; with `warm` values, over an Echo that has already been given them when the view
+/// is constructed ("all values delivered so far" are the values delivered to the view)
+fn spec_of(vi: usize, warm: &[f64]) -> Spec {
+    if warm.is_empty() {
+        Spec::leaf(kind(vi))
+    } else {
+        Spec::un(kind(vi), Spec::Warm(warm.to_vec(), Box::new(Spec::Echo)))
+    }
+}
+
 fn fail(out: &mut TrialOut, name: &str, clause: &str, scalar: &str, t: u64, got: String, exp: String, shape: Shape, seed: u64) {
     out.violation(
         name,
@@ -195,10 +205,10 @@ fn fail(out: &mut TrialOut, name: &str, clause: &str, scalar: &str, t: u64, got:
     );
 }
 
-fn run_f64(vi: usize, shape: Shape, seed: u64, len: u64, out: &mut TrialOut) {
+fn run_f64(vi: usize, shape: Shape, seed: u64, len: u64, warm: &[f64], out: &mut TrialOut) {
     let name = NAMES[vi];
     let cell = format!("{}/f64", name);
-    let mut v = build_plain::<f64>(&Spec::leaf(kind(vi)));
+    let mut v = build_plain::<f64>(&spec_of(vi, warm));
     let mut s = Stream::new(shape, seed, len);
     let mut b = Batch::new();
     let mut worst = 0f64;
@@ -265,10 +275,10 @@ fn run_f64(vi: usize, shape: Shape, seed: u64, len: u64, out: &mut TrialOut) {
     out.maxi("longest_stream", len as f64);
 }
 
-fn run_exact(vi: usize, shape: Shape, seed: u64, len: u64, out: &mut TrialOut) {
+fn run_exact(vi: usize, shape: Shape, seed: u64, len: u64, warm: &[f64], out: &mut TrialOut) {
     let name = NAMES[vi];
     let cell = format!("{}/exact", name);
-    let mut v = build_plain::<Xq>(&Spec::leaf(kind(vi)));
+    let mut v = build_plain::<Xq>(&spec_of(vi, warm));
     let mut s = Stream::new(shape, seed, len);
     let mut b = Batch::new();
     for t in 0..len {
@@ -332,7 +342,7 @@ impl Monitor for C13 {
             let shape = if idx == main { Shape::Walk } else { Shape::PeaksAndTroughs };
             let seed = rng.next();
             out.key(mix(hash_str(&format!("verylong{}", vi)), seed));
-            run_f64(vi, shape, seed, (1u64 << 24) + (1u64 << 18), out);
+            run_f64(vi, shape, seed, (1u64 << 24) + (1u64 << 18), &[], out);
             return;
         }
         let vi = (idx % 3) as usize;
@@ -344,11 +354,22 @@ impl Monitor for C13 {
         let l = cfg.tier.pick(20_000u64, 600_000);
         // (HugeLevel: short streams only, see the shape)
         let l = if shape == Shape::HugeLevel { 1000 } else { l };
+        // one trial in three: the view is constructed over an inner view that has a history already
+        // (1..4 values, above, inside or below the stream's range)
+        let warm: Vec<f64> = if rng.chance(1, 3) && shape != Shape::HugeLevel {
+            let level = *rng.pick(&[2000.0, 1500.25, 500.0, 0.5]);
+            (0..rng.usize(1, 4)).map(|i| level + i as f64).collect()
+        } else {
+            vec![]
+        };
+        if !warm.is_empty() {
+            out.count("trials_with_a_view_constructed_over_an_inner_view_that_already_has_a_history", 1);
+        }
         match rep % 4 {
-            0 => run_exact(vi, shape, seed, cfg.tier.pick(1_200, 3_000), out),
-            1 => run_f64(vi, shape, seed, l, out),
-            2 => run_f64(vi, shape, seed, 4 * l, out),
-            _ => run_f64(vi, shape, seed, 16 * l, out),
+            0 => run_exact(vi, shape, seed, cfg.tier.pick(1_200, 3_000), &warm, out),
+            1 => run_f64(vi, shape, seed, l, &warm, out),
+            2 => run_f64(vi, shape, seed, 4 * l, &warm, out),
+            _ => run_f64(vi, shape, seed, 16 * l, &warm, out),
         }
         if idx % 5 == 0 {
             out.sample(format!("{} on stream shape {:?} seed {} (values k/64 in [1,1000]), repetition {} (0: exact scalar; 1..3: f64 at L, 4L, 16L with L = {})", NAMES[vi], shape, seed, rep % 4, l));
@@ -363,7 +384,7 @@ impl Monitor for C13 {
         v
     }
     fn rule(&self) -> String {
-        "trial = (WelfordRolling | Drawdown | LnReturn; stream shape: reflected walk, peaks after deeper troughs, repeated equal peaks, monotone runs, long flat stretches, three decades, a high level with a small spread (990 + up to 1/32, 5/16 or 10), 2^41 + {0..3} on at most 16 000 values; seed; length). After every update: mean()/variance()/last() vs exact mean and population variance/std of all values so far (integer-scaled sums in i128), Drawdown vs the largest (peak_j - x_j)/peak_j over all j with the running peak, LnReturn vs ln(x_t/x_(t-1)). Equality at the exact scalar (1.2e3 / 3e3 values); at f64 tolerance 1e-11 of scale (observed on the unchanged tree: 6e-14; Drawdown 1e-12, LnReturn 1e-14) at every step of streams of L, 4L and 16L values (L = 2e4 quick, 6e5 thorough: 16L = 3.2e5 / ~1e7), the same tolerance at every length. distinct = distinct (view, shape, seed, length)".into()
+        "trial = (WelfordRolling | Drawdown | LnReturn; stream shape: reflected walk, peaks after deeper troughs, repeated equal peaks, monotone runs, long flat stretches, three decades, a high level with a small spread (990 + up to 1/32, 5/16 or 10), 2^41 + {0..3} on at most 16 000 values; seed; length). After every update: mean()/variance()/last() vs exact mean and population variance/std of all values so far (integer-scaled sums in i128), Drawdown vs the largest (peak_j - x_j)/peak_j over all j with the running peak, LnReturn vs ln(x_t/x_(t-1)). A third of the trials construct the view over an Echo that has already been given 1..4 values (the definitions are over the values delivered to the view). Equality at the exact scalar (1.2e3 / 3e3 values); at f64 tolerance 1e-11 of scale (observed on the unchanged tree: 6e-14; Drawdown 1e-12, LnReturn 1e-14) at every step of streams of L, 4L and 16L values (L = 2e4 quick, 6e5 thorough: 16L = 3.2e5 / ~1e7), the same tolerance at every length. distinct = distinct (view, shape, seed, length)".into()
     }
     fn assumptions(&self) -> Vec<String> {
         vec!["positive inputs k/64 in [1, 1000]".into(), "'any length' restated as: the same tolerance holds at L, 4L, 16L".into()]
